@@ -183,17 +183,24 @@ func (ch *child) runStorm(sp *Spec) (restart bool) {
 	if S1.Authed != ch.authed+nvalid {
 		ch.rec.Violation("state:authenticated-count", fmt.Sprintf("%d stored connections are marked authenticated after the concurrent phase, expected %d", S1.Authed, ch.authed+nvalid), map[string]any{"spec": sp, "client_table": ch.clientTable()})
 	}
-	// foreign events may only be connect notices of the valid logins (fewer is possible:
-	// concurrent EventAppend calls lose entries, which is C11's race on EventsList)
+	// foreign events may only be connect notices of operators that logged in validly. Their
+	// number is not checked: EventAppend is called concurrently here and its unsynchronised
+	// double append can lose and duplicate entries (C11's race on EventsList).
 	extra := tailDiff(S0.Foreign, S1.Foreign)
-	bad := len(extra) > nvalid
+	bad := false
 	for _, e := range extra {
-		if !strings.HasPrefix(e, "4/4 ") {
+		ok := false
+		for _, u := range []string{"bob", "carol", "dave"} {
+			if strings.HasPrefix(e, fmt.Sprintf("4/4 user=%q {\"User\":%q}", "", u)) {
+				ok = true
+			}
+		}
+		if !ok {
 			bad = true
 		}
 	}
 	if bad {
-		ch.rec.Violation("state:Events:concurrent", fmt.Sprintf("concurrent phase with %d successful logins appended events that the harness did not cause: %v", nvalid, extra), map[string]any{"spec": sp})
+		ch.rec.Violation("state:Events:concurrent", fmt.Sprintf("concurrent phase with %d successful logins appended events that neither the harness nor a successful login caused: %v", nvalid, extra), map[string]any{"spec": sp})
 	}
 	// leave one after the other
 	ch.authed += nvalid
